@@ -388,6 +388,12 @@ func main() {
 				}
 				c = append(c, explore.Config{Name: fmt.Sprintf("deep m=%d", m), MaxDepth: dd, MaxDev: -1})
 			}
+			ad := 3
+			if th {
+				ad = 4
+			}
+			c = append(c, explore.Config{Name: "audit(no dedup) small m=2", BuildName: "small m=2", MaxDepth: ad + 1, MaxDev: -1, NoDedup: true})
+			c = append(c, explore.Config{Name: "audit(no dedup) full m=2", BuildName: "full m=2", MaxDepth: ad - 1, MaxDev: -1, NoDedup: true})
 			return c
 		},
 		Budget: func(th bool) time.Duration {
